@@ -25,7 +25,7 @@ def gen_trace(seed, world, tier):
     if R.random() < 0.03:
         n = R.randint(12, 24)          # a few mid-size matrices
     fam = R.choice(["herm_pos", "herm_neg", "herm_mixed", "herm_mixed", "general", "general_int", "general_zero_col"])
-    scale = R.choice([0, 0, 0, 0, -6, 6, -3, 3, -12, 12, -9, -17, 17, -15])
+    scale = R.choice([0, 0, 0, 0, -6, 6, -3, 3, -12, 12, -9, -17, 17, -15, R.randint(-17, 17), R.randint(-11, -1)])
     # reducible Hermitian matrices (diagonal / block diagonal, dominant eigenvector away from
     # e_1): a start vector that is not random in every component never reaches it
     # ... and dense Hermitian matrices that have a "natural" deterministic vector (ones,
